@@ -74,6 +74,85 @@ def impl_fn(hexrec):
     return show_kevent(from_kd_buf(bytes.fromhex(hexrec)))
 
 
+def battery():
+    """Compact boundary battery: walking one / walking zero over the 52 decoded bytes, all-zero, all-ones."""
+    out = [bytes(64), b'\xff' * 64, bytes(range(1, 65))]
+    for bit in range(52 * 8):
+        a = bytearray(64); a[bit // 8] |= 1 << (bit % 8); out.append(bytes(a))
+        b = bytearray(b'\xff' * 64); b[bit // 8] &= ~(1 << (bit % 8)) & 0xff; out.append(bytes(b))
+    return out
+
+
+def history_section(rep, rng, tier):
+    """Decoding is a pure function of the record: it must not depend on what the process did before.  Each history
+    parses a whole dump first (version 2 with every is-64-bit word, version 3 with each header field in turn 0 / 1 /
+    all-ones) through KdBufParser and through PyKdebugParser, checks every event the dump itself yields, and then decodes the
+    boundary battery directly."""
+    import io
+    import struct
+    from .. import streams
+    from ..impl import show_kevent
+    from pykdebugparser.kevent import from_kd_buf
+    from pykdebugparser.kd_buf_parser import KdBufParser
+    from pykdebugparser.pykdebugparser import PyKdebugParser
+    sec = rep.section('kevent-history')
+    sec['rule'] = ('from_kd_buf on the boundary battery (walking one / zero over bytes 0..51) after the process has parsed a '
+                   'dump: v2 with is_64_bit in {0, 1, 2^32-1}, v3 with each of the 12 header words set to 0 / 1 / all-ones in '
+                   'turn; the events the dump itself yields (its records are battery records) are checked as well')
+    bat = battery()
+    inner = [r for r in bat if r[0] != 0][:40] + [b'\x01' + bytes(6) + b'\xff' + bytes(56), b'\xff' * 64]
+    sizes = 'IIQIIQQIIIII'
+    histories = [('v2 is64=%d' % v, streams.v2_file([(7, 42, 'launchd')], inner, is64=v)) for v in (0, 1, 2 ** 32 - 1)]
+    for i, c in enumerate(sizes):
+        top = (1 << (32 if c == 'I' else 64)) - 1
+        for v in (0, 1, top):
+            hf = list(streams.V3_HEADER)
+            hf[i] = v
+            histories.append(('v3 header word %d = %#x' % (i, v), streams.v3_file([(7, 42, 'launchd')], inner, None, None, tuple(hf))))
+    if tier == 'quick':
+        histories = histories[:3] + rng.sample(histories[3:], 14)
+    lines = ['kevent ' + r.hex() for r in bat]
+    model = core.drive(lines)
+    for what, data in histories:
+        for route in ('KdBufParser', 'PyKdebugParser'):
+            try:
+                if route == 'KdBufParser':
+                    evs = list(KdBufParser({}, {}).parse(io.BytesIO(data)))
+                else:
+                    evs = list(PyKdebugParser().kevents(io.BytesIO(data)))
+            except Exception:
+                evs = None                      # a header this dump format does not allow: still a history
+            if evs is not None:
+                for r, e in zip(inner, [e for e in evs if hasattr(e, 'debugid')]):
+                    sec['cases'] += 1
+                    res = oracle(r.hex(), show_kevent(e))
+                    if res:
+                        rep.add_failure(res[0], 'record inside a dump (%s, through %s): %s' % (what, route, res[1]),
+                                        {'section': 'kevent-history', 'history': what, 'dump': data.hex(), 'case': r.hex()})
+                        break
+            bad = None
+            for r, m in zip(bat, model):
+                sec['cases'] += 1
+                try:
+                    got = show_kevent(from_kd_buf(r))
+                except Exception as e:
+                    got = 'err ' + core.err_name(e)
+                if got != m:
+                    sec['mismatches'] += 1
+                res = oracle(r.hex(), got)
+                if res and not bad:
+                    bad = (res, r)
+            if bad:
+                res, r = bad
+                rep.add_failure(res[0].replace('kevent:', 'kevent:after-history-'),
+                                'after the process parsed a dump (%s, through %s): %s' % (what, route, res[1]),
+                                {'section': 'kevent-history', 'history': what, 'dump': data.hex(), 'case': r.hex()})
+            else:
+                sec['distinct_nontrivial'] += 1
+    if sec['mismatches']:
+        rep.broken.append('correspondence:kevent-history (%d of %d cases differ)' % (sec['mismatches'], sec['cases']))
+
+
 def correspondence(rep, rng, tier):
     cases = gen_cases(rng, tier)
     run_section(rep, 'kevent', cases,
@@ -83,6 +162,7 @@ def correspondence(rep, rng, tier):
                 kind_fn=lambda c, got: 'len64' if len(c) == 128 else 'wrong-length',
                 rule='512 walking-one + 512 walking-zero records, per-field all-ones/all-zero patterns, seeded random '
                      'records, wrong lengths 0..63,65,66,127,128; non-trivial = distinct 64-byte records decoded')
+    history_section(rep, rng, tier)
 
 
 def replay(path):
@@ -90,6 +170,23 @@ def replay(path):
     with open(path) as fd:
         r = json.load(fd)
     case = r['replay']['case']
+    if r['replay'].get('section') == 'kevent-history':
+        import io
+        from pykdebugparser.kd_buf_parser import KdBufParser
+        print('history:', r['replay']['history'])
+        try:
+            evs = list(KdBufParser({}, {}).parse(io.BytesIO(bytes.fromhex(r['replay']['dump']))))
+            from ..impl import show_kevent
+            inner = bytes.fromhex(r['replay']['dump'])
+            for e in evs:
+                if hasattr(e, 'debugid') and e.data == bytes.fromhex(case)[8:40]:
+                    res = oracle(case, show_kevent(e))
+                    if res:
+                        print('inside the dump:', show_kevent(e), '<-', res[1])
+                        print(f'VIOLATION property=C01 replay={path}')
+                        return 1
+        except Exception as e:
+            print('the dump itself raised', core.err_name(e))
     got = impl_fn(case) if True else None
     res = oracle(case, got)
     model = core.drive(['kevent ' + (case or '-')])[0]
